@@ -470,6 +470,36 @@ def call_entry(case, paths):
     return mokapot.read_pin(files, max_workers=case["workers"], **kw)
 
 
+LAST_WARNINGS = []  # WARNING records of the parser's logger during the last call of the real code
+
+
+class _WarnCapture(__import__("logging").Handler):
+    def __init__(self):
+        super().__init__(level=__import__("logging").WARNING)
+        self.lines = []
+
+    def emit(self, record):
+        try:
+            self.lines.append(record.getMessage())
+        except Exception as e:  # noqa: BLE001
+            self.lines.append(f"<unformattable record: {e}>")
+
+
+WARN_HEAD = "Missing values detected in the following features:"
+WARN_TAIL = "Dropping features with missing values..."
+
+
+def warned_names(lines):
+    """the feature names in the warning lines; None when the lines do not have the shape of pin.py:238-243"""
+    if not lines:
+        return []
+    if len(lines) < 3 or lines[0] != WARN_HEAD or lines[-1] != WARN_TAIL:
+        return None
+    if not all(x.startswith("  - ") for x in lines[1:-1]):
+        return None
+    return [x[4:] for x in lines[1:-1]]
+
+
 def run_impl_files(case, paths):
     """call the real code on one or several files; returns ('ok', [dataset-dict]) or ('error', exception)"""
     import logging
@@ -478,6 +508,14 @@ def run_impl_files(case, paths):
     P = importlib.import_module("mokapot.parsers.pin")
     P.CHUNK_SIZE_COLUMNS_FOR_DROP_COLUMNS = case["c"]
     P.CHUNK_SIZE_ROWS_FOR_DROP_COLUMNS = case["r"]
+    # the warnings of the parser (pin.py:238-243) are an observable of the drop list: capture them
+    plog = logging.getLogger("mokapot.parsers.pin")
+    cap = _WarnCapture()
+    old_level, old_prop = plog.level, plog.propagate
+    plog.addHandler(cap)
+    plog.setLevel(logging.WARNING)
+    plog.propagate = False
+    LAST_WARNINGS[:] = []
     try:
         res = call_entry(case, paths)
     except Exception as e:  # noqa: BLE001
@@ -485,6 +523,10 @@ def run_impl_files(case, paths):
     finally:
         P.CHUNK_SIZE_COLUMNS_FOR_DROP_COLUMNS = DEFAULT_C
         P.CHUNK_SIZE_ROWS_FOR_DROP_COLUMNS = DEFAULT_R
+        plog.removeHandler(cap)
+        plog.setLevel(old_level)
+        plog.propagate = old_prop
+        LAST_WARNINGS[:] = cap.lines
     if not isinstance(res, list):
         return "ok", [dict(malformed_result=repr(type(res)))]
     return "ok", [dataset_dict(ds) for ds in res]
@@ -572,6 +614,7 @@ CLAUSE = {
     "index": "row index of the spectra data frame is not 0..n-1 in file order",
     "path": "dataset.filename is not the path that was parsed",
     "meta_types": "metadata_column_types are not the types of the metadata columns, in the order of metadata_columns",
+    "drop_log": "the warning lines do not name exactly the non-metadata columns with a missing value",
 }
 
 
@@ -690,13 +733,16 @@ def eval_cases(chk, cases, tmpdir: Path):
         lines.append(req("pin-spec", tb))
         lines.append(req("pin-index", wire_args(c), c["c"], c["r"], tb))
         lines.append(req("pin-spec-args", wire_args(c), tb))
+        lines.append(req("pin-warn", wire_args(c), c["c"], c["r"], tb))
     resp = common.driver_batch(lines)
     type_reqs = []  # (case index, oracle types) of the cases whose metadata types are compared with `pin-types`
     for i, c in enumerate(cases):
-        mresp = dec(resp[4 * i])
-        sresp = dec(resp[4 * i + 1])
-        iresp = dec(resp[4 * i + 2])
-        aresp = dec(resp[4 * i + 3])
+        mresp = dec(resp[5 * i])
+        sresp = dec(resp[5 * i + 1])
+        iresp = dec(resp[5 * i + 2])
+        aresp = dec(resp[5 * i + 3])
+        wresp = dec(resp[5 * i + 4])
+        model_warn = None if isinstance(wresp, str) else (d_names(wresp[0]), d_names(wresp[1]))
         model = None if isinstance(mresp, str) else d_dataset(mresp)
         model_err = mresp if isinstance(mresp, str) else None
         model_index = None if isinstance(iresp, str) else [int(x) for x in iresp]
@@ -708,6 +754,7 @@ def eval_cases(chk, cases, tmpdir: Path):
         path = tmpdir / f"case{i}{c['suffix']}"
         write_case(c, path)
         status, out = run_impl(c, path)
+        warn_lines = list(LAST_WARNINGS)
         try:
             ftypes = file_types(c, path) if status == "ok" else None
         except Exception:  # noqa: BLE001
@@ -796,13 +843,25 @@ def eval_cases(chk, cases, tmpdir: Path):
             else:
                 type_reqs.append((i, c, ftypes, out.get("meta_types")))
         chk.count("meta_types_compared", exp_types is not None)
+        # the drop list as it is logged (pin.py:236-243; C10_drop_list, C10_warning_lines): direct re-statement —
+        # the names in the warning lines are exactly the non-metadata columns with a missing cell (each once,
+        # any order) or there is no warning at all
+        has_na = {n for n, cells in c["cols"] if any(x is None for x in cells)}
+        exp_dropped = [n for n, _ in c["cols"] if n not in out["metadata"] and n in has_na]
+        wn = warned_names(warn_lines)
+        chk.count("dropped_columns", min(len(exp_dropped), 4))
+        chk.count("drop_warning", "none" if wn == [] else ("malformed" if wn is None else "logged"))
+        if wn is None or (wn and sorted(wn) != sorted(exp_dropped)):
+            bad.append("drop_log")
         if wf and default_args:
             bad = bad + [f for f in diff_fields(out, spec) if f not in bad]
         if wf_args:
             bad = bad + [f for f in diff_fields(out, spec_args) if f not in bad]
         if bad:
             f0 = bad[0]
-            exp = dict(spec_args if wf_args else spec, index=list(range(nrows)), path=str(path), meta_types=exp_types)
+            exp = dict(spec_args if wf_args else spec, index=list(range(nrows)), path=str(path), meta_types=exp_types,
+                       drop_log=sorted(exp_dropped))
+            out = dict(out, drop_log=warn_lines)
             chk.spec_violation("clause:" + f0,
                                dict(info, impl={k: out.get(k) for k in bad}, expected={k: exp.get(k) for k in bad},
                                     clause=CLAUSE.get(f0, f"field {f0} differs from the specification")))
@@ -816,6 +875,14 @@ def eval_cases(chk, cases, tmpdir: Path):
                                                  model={k: model.get(k) for k in d}))
             if out.get("index") != model_index:
                 chk.corr_break("pin-index", dict(info, impl=out.get("index"), model=model_index))
+            # model of pin.py:236-243: which features are dropped, and whether / which are logged (`> 1`)
+            if model_warn is None:
+                chk.corr_break("pin-warn", dict(info, impl=warn_lines, model=wresp))
+            else:
+                impl_dropped = sorted(f for f in exp_dropped if f not in out["features"])
+                if (sorted(wn) != sorted(model_warn[1])) or impl_dropped != sorted(model_warn[0]):
+                    chk.corr_break("pin-warn", dict(info, impl=dict(warned=wn, dropped=impl_dropped),
+                                                    model=dict(dropped=model_warn[0], warned=model_warn[1])))
     # the types of the metadata columns: model of pin.py:207 on the types the file itself declares
     if type_reqs:
         tresp = common.driver_batch([req("pin-types", wire_args(c), ft) for _, c, ft, _ in type_reqs])
@@ -1387,6 +1454,21 @@ def random_cases(rng, n):
     return cases
 
 
+def norows_cases(rng, n):
+    """Parquet files without data rows: the reader yields no row chunk, `pd.concat([])` raises (model:
+    `reject-noobjects`, C10_no_rows_no_dataset).  Text files without rows are outside the model (the text reader
+    yields one empty chunk and the call returns an empty dataset) — see GAPS-C10, third pass."""
+    cases = []
+    for _ in range(n):
+        c = gen_case(rng, nmax=24, force=dict(fmt="parquet"))
+        c["cols"] = [[name, []] for name, _ in c["cols"]]
+        c["kind"] = "norows"
+        c["row_group"] = None
+        c["label_type"] = None
+        cases.append(c)
+    return cases
+
+
 def args_sweep(rng):
     """every keyword argument x entry point x keyword / positional call, naming a feature column (always an
     admissible call: the full specification applies)"""
@@ -1489,7 +1571,7 @@ def minimise(chk):
 
 def main(chk, args):
     build = common.build_and_audit("C10", extra_targets=["MokapotVerif.Mutants.Pin", "MokapotVerif.Mutants.PinExt",
-                                                         "MokapotVerif.Mutants.PinChecks"])
+                                                         "MokapotVerif.Mutants.PinChecks", "MokapotVerif.Mutants.PinWarn"])
     if not build.driver_ok:
         chk.finish(build, RULE)
     rng = chk.rng
@@ -1502,6 +1584,7 @@ def main(chk, args):
             cases += args_sweep(rng)
             cases += files_cases(rng, 36)
             cases += label_cases(rng, 20)
+            cases += norows_cases(rng, 6)
             cases += ctor_cases(rng, 60) + ctor_sweep(rng)
             # create_chunks_with_identifier directly: every feature count 0..60 x identifier count x chunk size
             cases += idchunks_cases(range(0, 61), range(1, 6), [1, 2, 3, 4, 5, 7, 18, 19, 20, 21, 64])
@@ -1515,6 +1598,7 @@ def main(chk, args):
             cases += args_sweep(rng) + args_sweep(rng) + args_sweep(rng)
             cases += files_cases(rng, 450)
             cases += label_cases(rng, 240)
+            cases += norows_cases(rng, 40)
             cases += ctor_cases(rng, 900) + ctor_sweep(rng) + ctor_sweep(rng) + ctor_sweep(rng)
             cases += idchunks_cases(range(0, 61), range(1, 7), list(range(1, 31)) + [64, 100])
             cases += sweep_feature_counts(rng, range(1, 61), [None, 1, 2, 3, 4, 5, 7, 11], ["pin", "parquet"])
@@ -1531,7 +1615,8 @@ def main(chk, args):
     lc = None
     if chk.tier == "thorough":
         lc1, lc2, lc3 = common.leanchecker("C10"), common.leanchecker("C10Ext"), common.leanchecker("C10Checks")
-        lc = (lc1[0] and lc2[0] and lc3[0], lc1[1] + lc2[1] + lc3[1])
+        lc4 = common.leanchecker("C10Warn")
+        lc = (lc1[0] and lc2[0] and lc3[0] and lc4[0], lc1[1] + lc2[1] + lc3[1] + lc4[1])
     chk.assumptions += [
         "pandas.read_csv / pyarrow decide which cells are missing (NA tokens, nulls, NaN) and infer the column "
         "dtypes; the model receives the table after that decoding (cells: missing | int | bool | text)",
